@@ -59,10 +59,22 @@ Theorem repair_makes_valid_version v u c : v = u ++ [43] -> SpecModel.Version u 
 Proof.
   intros -> Hu L E. split; [apply ends_plus_spec; eauto|]. rewrite <- app_assoc. cbn [app]. eapply repaired_is_version; eauto.
 Qed.
-(* and the restricted form CPython actually produces: N(.N)* [ (a|b|rc) N ] "+" *)
+(* non-vacuity on the forms CPython actually produces, N(.N)* [ (a|b|rc) N ] "+": for each witness v the HYPOTHESES of
+   repair_makes_valid_version are computed with u = v without its last character (u is a version, without local label, not ending
+   in whitespace, v = u ++ "+"), and then the conclusion (v ends in "+", v ++ "local" is a version - with a local label).
+   The model has no digit limit (finding D10): the real Version() additionally rejects a component of more than 4300 digits. *)
 Definition repair_check : bool :=
-  forallb (fun v => match SpecModel.Version v, SpecModel.Version (v ++ w_local) with None, Some c => match Py.local c with Some _ => ends_plus v | None => false end | _, _ => false end)
-          [[51;46;49;51;46;48;43]; [51;46;49;51;46;48;97;49;43]; [51;46;49;52;46;48;114;99;50;43]; [51;46;57;43]].
+  forallb (fun v : list N =>
+     let u := removelast v in
+     match SpecModel.Version u with
+     | Some c => match Py.local c with None => true | Some _ => false end
+     | None => false end
+     && negb (ends_ws u) && str_eqb v (u ++ [43])
+     && ends_plus v
+     && match SpecModel.Version (v ++ w_local) with
+        | Some c' => match Py.local c' with Some _ => true | None => false end
+        | None => false end)
+    [[51;46;49;51;46;48;43]; [51;46;49;51;46;48;97;49;43]; [51;46;49;52;46;48;114;99;50;43]; [51;46;57;43]].
 Example repair_nonvacuous : repair_check = true.
 Proof. vm_compute. reflexivity. Qed.
 Print Assumptions repaired_is_version.
